@@ -169,7 +169,11 @@ func (p *Program) importAlias(pkgPath, name string) (string, bool) {
 func (p *Program) addFile(cf *ContractFile) {
 	p.Files = append(p.Files, cf)
 	for _, c := range cf.Contracts {
-		p.Contracts[cf.Pkg+"::"+c.FuncName] = c
+		key := cf.Pkg + "::" + c.FuncName
+		if c.Alt != "" {
+			key += "#" + c.Alt // never matches a call-site lookup
+		}
+		p.Contracts[key] = c
 	}
 	for _, s := range cf.Specs {
 		p.Specs[s.Name] = s
